@@ -207,6 +207,11 @@ func (p *parser) parseTopLevelDecl() (*a.Node, error) {
 					return nil, fmt.Errorf(`parse: cannot have a method named %q at %s:%d`,
 						id1.Str(p.tm), p.filename, p.line())
 				}
+				// The generated wuffs_foo__bar__alloc function takes this name.
+				if id1.Str(p.tm) == "alloc" {
+					return nil, fmt.Errorf(`parse: cannot have a method named %q at %s:%d`,
+						id1.Str(p.tm), p.filename, p.line())
+				}
 			}
 			// TODO: should we require id0 != 0? In other words, always methods
 			// (attached to receivers) and never free standing functions?
